@@ -31,6 +31,10 @@ A cell is a dict
   variant : base | implicit | after_headers            (implicit: send_message opens the stream itself;
                                                         after_headers: initial metadata already received)
   holder  : idle | blocked                             (reason=slot: what the call holding the slot is doing)
+  pre     : live | keepalive-closed   (keepalive-closed: the channel has keepalive configured, the peer never
+            acknowledges a PING, so grpclib's keepalive timeout has closed the connection -- the transport is
+            closing -- but the transport still holds unsent data and has NOT delivered connection_lost yet; only
+            the events lost / close can follow)
 """
 import asyncio
 import struct
@@ -307,7 +311,12 @@ def run_cell(cell):
     perr = cell.get('perr', 'continuation@own')
     obs = {'setup': 'ok'}
     with vloop.session() as loop:
-        ce = wire.ClientEnd(loop)
+        pre = cell.get('pre', 'live')
+        config = None
+        if pre == 'keepalive-closed':
+            from grpclib.config import Configuration
+            config = Configuration(_keepalive_time=4.0, _keepalive_timeout=4.0)
+        ce = wire.ClientEnd(loop, config=config)
         rec = {}
         gate = asyncio.Event()
         hold = asyncio.Event()
@@ -397,6 +406,16 @@ def run_cell(cell):
             return obs
         proto = ce.proto
         finished_sid = other_sid = None
+        if pre == 'keepalive-closed':
+            # a transport with unsent data: close() marks it closing, connection_lost comes only when the
+            # harness says so (MemTransport.lose)
+            tr = ce.transport
+            tr.close = lambda: setattr(tr, 'closing', True)
+
+        def keepalive_gives_up():
+            """let the unanswered keepalive PING time out; True when the transport is closing afterwards"""
+            loop.advance(16.0)
+            return ce.transport.is_closing() and not ce.transport.lost
         if event == 'goaway' and '/lower/' in (cell.get('goaway') or ''):
             if not warm_up(loop, ce, 'reset')[0]:
                 obs['setup'] = 'warm-up-stuck'
@@ -485,6 +504,10 @@ def run_cell(cell):
                 ce.channel.close()
             return None
 
+        if pre == 'keepalive-closed' and order == 'before':
+            if not keepalive_gives_up():
+                obs['setup'] = 'keepalive-did-not-close'
+                return obs
         if order == 'before':
             obs['registered'] = registered(box['stream'], proto) if 'stream' in box else False
             why = fire()
@@ -529,6 +552,14 @@ def run_cell(cell):
             obs['member'] = is_member(stream, task) if stream is not None else False
             obs['registered'] = registered(stream, proto) if stream is not None else False
             obs['opening'] = sid_of(ce.peer, PATH) is None
+            if pre == 'keepalive-closed':
+                if not keepalive_gives_up():
+                    obs['setup'] = 'keepalive-did-not-close'
+                    return obs
+                if task.done():
+                    obs['setup'] = 'op-not-blocked'
+                    obs['op'] = outcome_class(vloop.outcome(task))
+                    return obs
             t_ev = loop.time()
             why = fire()
             if why:
@@ -570,8 +601,11 @@ def ev_is_lower_goaway(spec):
 def run_multi(spec):
     """spec = {'ops': [op, ...] started concurrently as tasks of one call (each blocked for its own reason:
     sm on flow control, en/ca on a paused transport, ri/rm/rt on the silent peer), 'paused': bool,
-    'window': bool, 'event': .., 'after': [op, ...] started after the event, 'deadline': bool}.
-    Returns per-task outcomes."""
+    'window': bool, 'mid': [step, ...] between the start of the operations and the event -- 'reply' (response
+    headers if not yet sent + one message), 'credit' (exactly the flow-control credit one blocked
+    send_message needs), 'resume' (the transport resumes writing), 's.<op>' (the application starts another
+    operation, e.g. the receiver task loops) --, 'event': .., 'after': [op, ...] started after the event,
+    'deadline': bool}.  Returns per-task outcomes (tasks in start order)."""
     out = {'setup': 'ok', 'during': [], 'after': []}
     with vloop.session() as loop:
         ce = wire.ClientEnd(loop)
@@ -581,6 +615,7 @@ def run_multi(spec):
         go_ops = asyncio.Event()
         fin = asyncio.Event()
         tasks = {}
+        more = asyncio.Queue()
 
         def coro_of(op):
             return {'sm': lambda: stream.send_message(b'x' * 8), 'en': stream.end,
@@ -595,6 +630,11 @@ def run_multi(spec):
                 tasks['ready'] = True
                 await go_ops.wait()
                 tasks['during'] = [loop.create_task(coro_of(o)) for o in spec['ops']]
+                while True:
+                    o = await more.get()
+                    if o is None:
+                        break
+                    tasks['during'].append(loop.create_task(coro_of(o)))
                 await go_after.wait()
                 tasks['after'] = [loop.create_task(coro_of(o)) for o in spec['after']]
                 await fin.wait()
@@ -624,9 +664,31 @@ def run_multi(spec):
             ce.transport.pause()
         go_ops.set()
         loop.run_quiet(1.0)
+        headers_sent = bool(spec.get('headers'))
+        names = list(spec['ops'])
+        for step in spec.get('mid', []):
+            if step == 'reply':
+                if not headers_sent:
+                    ce.peer.headers(sid, P.RESP_HEADERS)
+                    headers_sent = True
+                ce.peer.data(sid, P.grpc_frame(b'r'))
+            elif step == 'credit':
+                ce.peer.window_update(sid, 13)          # the 5-byte prefix + the 8-byte message
+            elif step == 'resume':
+                ce.transport.resume()
+            else:
+                names.append(step[2:])
+                more.put_nowait(step[2:])
+            loop.run_quiet(1.0)
+        more.put_nowait(None)
+        loop.run_quiet(1.0)
+        cancelled_by_client = any(o == 'ca' and t.done() for o, t in zip(names, tasks['during']))
         pend = [not t.done() for t in tasks['during']]
         t_ev = loop.time()
         ev = spec['event']
+        if ev in ('rst', 'serr') and cancelled_by_client:
+            out['setup'] = 'rst-infeasible'      # the client has reset the stream itself
+            return out
         if ev == 'rst':
             try:
                 ce.peer.reset(sid, spec.get('rst_code', 8))
@@ -649,7 +711,7 @@ def run_multi(spec):
         else:
             ce.channel.close()
         loop.run_quiet(PROMPT_SPAN)
-        for o, t, was_pending in zip(spec['ops'], tasks['during'], pend):
+        for o, t, was_pending in zip(names, tasks['during'], pend):
             out['during'].append({'op': o, 'blocked': was_pending, 'res': outcome_class(vloop.outcome(t))})
         go_after.set()
         loop.run_quiet(PROMPT_SPAN)
